@@ -89,6 +89,9 @@ pub struct ExecState {
     pub dtor_rng: crate::gen::Rng,
     pub dtor_auto: Id,
     pub inline_record: Vec<(u32, Vec<Op>)>,
+    pub call_start_alive: usize,
+    pub call_start_traces: usize,
+    pub call_start_visits: usize,
 }
 
 impl Default for ExecState {
@@ -97,7 +100,7 @@ impl Default for ExecState {
             depth: 0, dtor_counter: 0, faults: Faults::default(), fired_panics: 0, fired_scripts: 0, panic_in_call: false, any_panic: false,
             pending_clone: None, clone_done: None, c14: None, record_dtors: false, dtors: vec![], call_digests: vec![], order_digest: 0,
             call_start_log: 0, c16_markers: false, collected_group_with_outside_survivor: false, nested_destroy_in_script: 0, nontrivial: 0,
-            shape_hash: 0, dtor_downgrade_p: 0, dtor_rng: crate::gen::Rng(0), dtor_auto: 0, inline_record: vec![],
+            shape_hash: 0, dtor_downgrade_p: 0, dtor_rng: crate::gen::Rng(0), dtor_auto: 0, inline_record: vec![], call_start_alive: 0, call_start_traces: 0, call_start_visits: 0,
         }
     }
 }
@@ -321,6 +324,18 @@ impl Node {
         let weaks = std::mem::take(&mut *self.weaks.borrow_mut());
         for ws in weaks {
             st(St::f_weak_upgrade_in_dtor, 1);
+            if report::soft_enabled(report::S_WEAK) {
+                // counts through a Weak, observed from inside a destructor: zero for a
+                // destroyed target, exact for a target the program can still reach
+                // (a dying peer that has not been destroyed yet is not judged here)
+                let (sc, wcnt) = weak_call(|| (ws.w.strong_count(), ws.w.weak_count()));
+                let (gone, held, phys, nweak) = m(|m| (!m.weak_alive(ws.target, ws.epoch), m.must_live().contains(&ws.target), m.phys(ws.target), m.nweak(ws.target, ws.epoch)));
+                if gone && (sc != 0 || wcnt != 0) {
+                    soft("dead-weak-counts", "nonzero-inside-destructor", &format!("inside the destructor of {id}, a Weak to destroyed object {} reports strong_count {sc}, weak_count {wcnt}", ws.target));
+                } else if !gone && held && (sc != phys as usize || wcnt != nweak as usize) {
+                    soft("weak-counts", "live-target-inside-destructor", &format!("inside the destructor of {id}, a Weak to reachable object {} reports strong_count {sc} (expected {phys}), weak_count {wcnt} (expected {nweak})", ws.target));
+                }
+            }
             let up = weak_call(|| ws.w.upgrade());
             record_upgrade_obs(id, ws.target, ws.epoch, up.is_some());
             if let Some(r) = up {
@@ -1176,6 +1191,9 @@ pub fn top_level(op: &Op) -> bool {
     x(|x| {
         x.panic_in_call = false;
         x.call_start_log = m(|m| m.destroyed_log.len());
+        x.call_start_alive = m(|m| m.objs.values().filter(|o| o.alive && o.rc).count());
+        x.call_start_traces = verif::TRACE_CALLS.load(Relaxed);
+        x.call_start_visits = verif::TRACE_VISITS.load(Relaxed);
     });
     let r = catch_unwind(AssertUnwindSafe(|| exec(op, None)));
     let (did, panicked) = match r {
@@ -1212,6 +1230,19 @@ fn after_call(panicked: bool) {
     c14_close();
     if verif::STALE_ACCESS.load(Relaxed) > 0 {
         on_stale_access();
+    }
+    if report::soft_enabled(report::S_VISITS) {
+        // C15 on small histories: a trace visits each object at most once, so the
+        // first-time visits of all traces of this call are bounded by (number of
+        // traces) x (objects alive when the call began, plus those created by it)
+        let (a0, t0, v0) = x(|x| (x.call_start_alive, x.call_start_traces, x.call_start_visits));
+        let a1 = m(|m| m.objs.values().filter(|o| o.alive && o.rc).count());
+        let (t1, v1) = (verif::TRACE_CALLS.load(Relaxed), verif::TRACE_VISITS.load(Relaxed));
+        let bound = (t1 - t0) * a0.max(a1);
+        st(St::p_c15_visit_checks, (t1 - t0) as u64);
+        if v1 - v0 > bound {
+            soft("revisit", "object-visited-more-than-once-per-trace", &format!("{} reachability traces made {} first-time visits although at most {} objects were alive", t1 - t0, v1 - v0, a0.max(a1)));
+        }
     }
     let (frames, temps, depth) = (m(|m| m.frames.len()), m(|m| m.temps.len()), x(|x| x.depth));
     if frames != 0 || temps != 0 || depth != 0 {
